@@ -15,7 +15,7 @@ import (
 func c04pool() []Bind {
 	return []Bind{
 		{"vnil", vNil()}, {"vt", vBool(true)}, {"vf", vBool(false)}, {"vi", vInt(3)}, {"vz", vInt(0)}, {"vneg", vInt(-2)},
-		{"vfl", vFloat("1.5")}, {"vs", vStr("str")}, {"ve", vStr("")}, {"vh", vHTML("<b>")},
+		{"vfl", vFloat("1.5")}, {"vs", vStr("str")}, {"vre", vStr("(")}, {"vre2", vStr("a[")}, {"ve", vStr("")}, {"vh", vHTML("<b>")},
 		{"vxs", vSlice("iface", vInt(1), vStr("a"))}, {"vxe", vSlice("iface")}, {"vss", vSlice("string", vStr("a"), vStr("b"))}, {"vis", vSlice("int", vInt(1), vInt(2))},
 		{"vts", vSlice("T0", vT0("e0"))},
 		{"vm", vMap("string", "iface", vStr("a"), vInt(1))}, {"vmi", vMap("string", "int", vStr("a"), vInt(1))}, {"vms", vMap("string", "string", vStr("a"), vStr("x"))},
@@ -83,7 +83,7 @@ func init() {
 		ops := []string{"+", "-", "*", "/", "<", "<=", ">", ">=", "==", "!=", "&&", "||", "~="}
 		sub := names
 		if !e.Thorough() {
-			sub = []string{"vnil", "vt", "vi", "vz", "vfl", "vs", "ve", "vh", "vxs", "vss", "vm", "vt0", "vp1", "vnp", "vfn0"}
+			sub = []string{"vnil", "vt", "vi", "vz", "vfl", "vs", "vre", "ve", "vh", "vxs", "vss", "vm", "vt0", "vp1", "vnp", "vfn0"}
 		}
 		for _, op := range ops {
 			for _, l := range sub {
